@@ -221,20 +221,21 @@ def main():
             if hit[0].startswith('FIND'):
                 finds.append((s, hit[0]))
                 continue
-            items = slices.site_items(s.fn, c, s.term, s.bb)
+            items = slices.canon_site_items(s.fn, c, s.trees, s.kind, s.bb)
             dg, hs = slices.digest(items)
-            if k in seen:
-                e = seen[k]
+            ck = s.ckey
+            if ck in seen:
+                e = seen[ck]
                 if dg not in e['slices']:
                     e['slices'].append(dg)
                     e['slice_items'] = sorted(set(e['slice_items']) | set(hs))
                 continue
-            e = {'key': k, 'why': hit[0], 'where': '%s:%d' % (s.fn.file, s.line)}
+            e = {'key': ck, 'site': k, 'why': hit[0], 'where': '%s:%d' % (s.fn.file, s.line)}
             if hit[1]:
                 e['backing'] = hit[1]
             e['slices'] = [dg]
             e['slice_items'] = hs
-            seen[k] = e
+            seen[ck] = e
             out.append(e)
     with open(os.path.join(HERE, 'panic_table.json'), 'w') as fh:
         json.dump({'entries': out}, fh, indent=0)
